@@ -158,32 +158,7 @@ func checkC07(c *Ctx) {
 	}
 	c.R.Min("R-close-once", 3)
 
-	// ---- R-bounded-scanner
-	nSc := 0
-	for _, fn := range fns {
-		ir.EachInstr(fn, func(_ *ssa.BasicBlock, _ int, in ssa.Instruction) {
-			call, ok := in.(*ssa.Call)
-			if !ok || ir.CallName(call) != "bufio.NewScanner" {
-				return
-			}
-			nSc++
-			buffered := false
-			for _, r := range *call.Referrers() {
-				if rc, ok := r.(*ssa.Call); ok && ir.CallName(rc) == "(*bufio.Scanner).Buffer" {
-					// the configured maximum must be generous (>= 16 MiB)
-					if max, ok := ir.ConstInt(rc.Call.Args[2]); ok && max >= 1<<24 {
-						buffered = true
-					}
-				}
-			}
-			c.R.Check(buffered, "R-bounded-scanner", "scanner in "+fname(fn), c.Pos(call.Pos()), "an explicit buffer limit is configured",
-				sprintf("%s reads the peer's stream with a bufio.Scanner at its default 64 KiB token limit: one longer line ends the reader with ErrTooLong and every later frame is silently lost", fname(fn)))
-		})
-	}
-	if nSc == 0 {
-		c.R.Hold("R-bounded-scanner", "no bufio.Scanner on peer streams", "", "all stream readers use bufio.Reader")
-	}
-	c.R.Min("R-bounded-scanner", 1)
+	scannersBounded(c, fns, "R-bounded-scanner")
 
 	c07ReconnectPaced(c, fns)
 	c07OnceComplete(c, fns)
@@ -868,4 +843,34 @@ func nilNilChain(c *Ctx, fn *ssa.Function, may map[*ssa.Function]bool) string {
 		names = names[:4]
 	}
 	return strings.Join(names, ", ")
+}
+
+// scannersBounded: stream readers do not use bufio.Scanner with its default 64 KiB token limit (a longer line — an
+// answer of ordinary size is enough — ends the reader with ErrTooLong and the frame, and all later ones, are lost).
+func scannersBounded(c *Ctx, fns []*ssa.Function, rule string) {
+	nSc := 0
+	for _, fn := range fns {
+		ir.EachInstr(fn, func(_ *ssa.BasicBlock, _ int, in ssa.Instruction) {
+			call, ok := in.(*ssa.Call)
+			if !ok || ir.CallName(call) != "bufio.NewScanner" {
+				return
+			}
+			nSc++
+			buffered := false
+			for _, r := range *call.Referrers() {
+				if rc, ok := r.(*ssa.Call); ok && ir.CallName(rc) == "(*bufio.Scanner).Buffer" {
+					// the configured maximum must be generous (>= 16 MiB)
+					if max, ok := ir.ConstInt(rc.Call.Args[2]); ok && max >= 1<<24 {
+						buffered = true
+					}
+				}
+			}
+			c.R.Check(buffered, rule, "scanner in "+fname(fn), c.Pos(call.Pos()), "an explicit buffer limit is configured",
+				sprintf("%s reads the peer's stream with a bufio.Scanner at its default 64 KiB token limit: one longer line ends the reader with ErrTooLong and every later frame is silently lost", fname(fn)))
+		})
+	}
+	if nSc == 0 {
+		c.R.Hold(rule, "no bufio.Scanner on peer streams", "", "all stream readers use bufio.Reader")
+	}
+	c.R.Min(rule, 1)
 }
